@@ -22,6 +22,7 @@ package parser
 import (
 	"errors"
 	"fmt"
+	"math/big"
 	"os"
 	"runtime"
 	"strconv"
@@ -252,6 +253,13 @@ func parseIntLiteral(s string) (int64, error) {
 func (p *parser) newNumberLiteral(v Item) *ast.Node {
 	if n, err := parseIntLiteral(v.Val); err != nil {
 		f, err := strconv.ParseFloat(v.Val, 64)
+		if err != nil && len(v.Val) > 2 && v.Val[0] == '0' && (v.Val[1] == 'x' || v.Val[1] == 'X') {
+			// a 0x integer too large for int64 is the nearest float64, like a decimal one
+			if b, ok := new(big.Int).SetString(v.Val[2:], 16); ok {
+				f, _ = new(big.Float).SetInt(b).Float64()
+				err = nil
+			}
+		}
 		if err != nil {
 			p.addParseErrf(p.yyParser.lval.item.PositionRange(),
 				"error parsing number: %s", err)
